@@ -76,6 +76,38 @@ def bounded(tier, seed):
         for ln in out.split("\n"):
             if ln != ln.rstrip(" ") and ln.strip(" >") == "":
                 viol.append({"clause": "code_blank_no_trailing_space", "input": {"text": doc}, "got": out})
+    # growth of the running time on pumped one-paragraph / many-block families that are linear on this tree: quadrupling the
+    # input must not multiply the time by much more than four (bounded timing probe; a family is flagged only when the exponent
+    # exceeds 1.8 AND the larger run takes over 2 s, and the measurement repeats)
+    import math as _math
+    light = ["~a ", "word ", "Word. ", "**a** ", "a... ", '"a" ', "it's ", "a_b ", "\\* ", "| a ", "~~a~~ ", "`a` ", "[a](u) ", "<b> ", "{{x}} y ",
+             "![i](u) ", "[^f] ", "http://x.y/z ", "a. B ", "(a) ", "a, "]
+    heavy = ["1. a\n", "- a\n", "> a\n", "a\n\n", "a  \n", "| a | b |\n"]     # (task items are left out: their exponent is about 1.5 on this tree already)
+    growth = {}
+    for fam, sizes in [(u, (6000, 24000)) for u in light] + [(u, (1500, 6000)) for u in heavy]:
+        for o in (dict(width=88), dict(width=88, semantic=True, smartquotes=True, ellipses=True)):
+            for attempt in (0, 1):
+                ts = []
+                for k in sizes:
+                    t0 = time.time()
+                    signal.alarm(90)
+                    try:
+                        P.fmt(fam * k + "\n", **o)
+                    except Watchdog:
+                        pass
+                    except Exception:
+                        pass
+                    finally:
+                        signal.alarm(0)
+                    ts.append(max(time.time() - t0, 1e-4))
+                    evals += 1
+                exp = _math.log(ts[1] / ts[0]) / _math.log(sizes[1] / sizes[0])
+                if not (exp > 1.8 and ts[1] > 2.0):
+                    break
+            growth["%r/%s" % (fam, "sem" if o.get("semantic") else "fill")] = round(exp, 2)
+            if exp > 1.8 and ts[1] > 2.0:
+                viol.append({"clause": "grows_gently", "input": {"text": "%r * %d" % (fam, sizes[1]), "options": o, "pumped": fam},
+                             "got": {"times": [round(t, 3) for t in ts], "sizes": list(sizes), "exponent": round(exp, 2)}})
     # pumped families (thorough): growth exponent of the running time
     pumped = {}
     if tier == "thorough":
@@ -100,11 +132,11 @@ def bounded(tier, seed):
             pumped[unit] = round(exp, 2)
             if exp > 2.6 and ts[-1] > (2.0 if unit != "> " else 0.1):
                 viol.append({"clause": "grows_gently", "input": {"text": "%r * k" % unit, "pumped": unit}, "got": {"times": ts, "exponent": exp}})
-    return {"evaluations": evals, "distinct_nontrivial": len(distinct), "violations": viol, "pumped_exponents": pumped,
+    return {"evaluations": evals, "distinct_nontrivial": len(distinct), "violations": viol, "pumped_exponents": pumped, "growth_exponents": growth,
             "samples": [{"soup": "".join(rnd.choice(SOUP) for _ in range(20))}],
             "rule": "seeded Unicode soup (unbalanced delimiters, control characters, CR/LF mixes, NUL, U+2028, look-alikes of the internal placeholder tokens) of length 3-120 x "
                     "seeded option sets incl. widths -1/0/1/88/10^6 under a 10 s watchdog: returns, ends in a newline (Markdown "
-                    "mode), introduces no NUL; 52 degenerate documents (empty and whitespace-only ones, consecutive hard breaks, ragged tables, lone delimiters) (unclosed / empty frontmatter, lone delimiters) x 6 option sets likewise; code-block blank lines carry no trailing spaces; thorough: pumped families with a "
+                    "mode), introduces no NUL; 52 degenerate documents (empty and whitespace-only ones, consecutive hard breaks, ragged tables, lone delimiters) (unclosed / empty frontmatter, lone delimiters) x 6 option sets likewise; code-block blank lines carry no trailing spaces; quick and thorough: the running time on 27 pumped families of two sizes (x4) in fill and semantic mode grows with an exponent <= 1.8 (bounded timing probe, repeated before it is reported); thorough: pumped families with a "
                     "fitted growth exponent; distinct = distinct outputs",
             "exhaustive": False, "bound": "%d strings" % n}
 
